@@ -1,5 +1,5 @@
 //! C15 — command-line options mean what they say and nothing more.
-use super::cmd::{self, canonical, run_via_cli, run_via_lib, same_results, Cmd, Outcome, Preset, Sub};
+use super::cmd::{self, canonical, run_via_cli, run_via_lib, run_via_py_entry, same_results, Cmd, Outcome, Preset, Sub};
 use crate::engine::{Ctx, Leg, Tier, Verdict};
 use crate::gen::{self, Container, Rec, RecParams};
 use crate::io;
@@ -23,6 +23,8 @@ pub enum Rel {
     Acgt,
     /// oligo: input through stdin instead of a file
     Stdin,
+    /// same command line through the Python package's entry point (pykmertools.run_cli)
+    PyEntry,
 }
 
 #[derive(Clone, Debug, Serialize, Deserialize)]
@@ -37,7 +39,7 @@ pub struct Case {
 fn other(c: &Case) -> Cmd {
     let mut b = c.cmd.clone();
     match &c.rel {
-        Rel::Library => {}
+        Rel::Library | Rel::PyEntry => {}
         Rel::Preset(p) => b.preset = *p,
         Rel::Header => b.header = !b.header,
         Rel::Threads(t) => b.threads = *t,
@@ -84,7 +86,7 @@ pub fn check_case(c: &Case) -> Verdict {
     let mut v = Verdict::new();
     let a = &c.cmd;
     let b = other(c);
-    v.class(format!("{:?}-{}", a.sub, match &c.rel { Rel::Library => "library", Rel::Preset(_) => "preset", Rel::Header => "header", Rel::Threads(_) => "threads", Rel::Counts => "counts", Rel::Acgt => "acgt", Rel::Stdin => "stdin" }));
+    v.class(format!("{:?}-{}", a.sub, match &c.rel { Rel::Library => "library", Rel::Preset(_) => "preset", Rel::Header => "header", Rel::Threads(_) => "threads", Rel::Counts => "counts", Rel::Acgt => "acgt", Rel::Stdin => "stdin", Rel::PyEntry => "py-entry" }));
     let nondefault = [a.counts, a.header, a.preset != Preset::Spc, a.threads != 0, a.alt, a.acgt, a.m2s, a.w != 0, a.stdin].iter().filter(|&&x| x).count();
     v.nontrivial = c.recs.len() >= 2 && nondefault >= 2;
     let dir = crate::scratch_dir();
@@ -104,7 +106,11 @@ pub fn check_case(c: &Case) -> Verdict {
         v.fail("cli-failed", format!("{:?}: {}", a.args("IN", Some("ALT"), "OUT"), ra.describe()));
         return v;
     }
-    let rb: Outcome = if c.rel == Rel::Library { run_via_lib(a, &input, Some(&altp), &out_b) } else { run_via_cli(&b, &input, Some(&altp), &out_b, Some(&stdin_data)) };
+    let rb: Outcome = match c.rel {
+        Rel::Library => run_via_lib(a, &input, Some(&altp), &out_b),
+        Rel::PyEntry => run_via_py_entry(a, &input, Some(&altp), &out_b, Some(&stdin_data)),
+        _ => run_via_cli(&b, &input, Some(&altp), &out_b, Some(&stdin_data)),
+    };
     if rb.timed_out {
         v.class("cli-timeout");
         return v;
@@ -128,9 +134,9 @@ pub fn check_case(c: &Case) -> Verdict {
                 v.fail("cli-differs-from-library", format!("{}: {}", what, e));
             }
         }
-        Rel::Threads(_) | Rel::Stdin => {
+        Rel::Threads(_) | Rel::Stdin | Rel::PyEntry => {
             if let Err(e) = same_results(a, &ra, &rb) {
-                v.fail(if c.rel == Rel::Stdin { "stdin-changes-result" } else { "threads-change-result" }, format!("{}: {}", what, e));
+                v.fail(match c.rel { Rel::Stdin => "stdin-changes-result", Rel::PyEntry => "python-entry-differs-from-executable", _ => "threads-change-result" }, format!("{}: {}", what, e));
             }
         }
         Rel::Preset(p) => {
@@ -210,29 +216,29 @@ pub fn cmd_strategy() -> BoxedStrategy<(Cmd, Rel)> {
     let oligo = (3u64..=7, any::<bool>(), preset(), any::<bool>(), threads_cli(), prop::bool::weighted(0.2))
         .prop_flat_map(|(k, counts, p, header, t, stdin)| {
             let cmd = Cmd { k, counts, preset: p, header, threads: t, stdin, ..Cmd::base(Sub::Oligo) };
-            let rel = prop_oneof![3 => Just(Rel::Library), 2 => preset().prop_map(Rel::Preset), 2 => Just(Rel::Header), 2 => threads_cli().prop_map(Rel::Threads), 2 => Just(Rel::Counts), 1 => Just(Rel::Stdin)];
+            let rel = prop_oneof![3 => Just(Rel::Library), 2 => preset().prop_map(Rel::Preset), 2 => Just(Rel::Header), 2 => threads_cli().prop_map(Rel::Threads), 2 => Just(Rel::Counts), 1 => Just(Rel::Stdin), 1 => Just(Rel::PyEntry)];
             (Just(cmd), rel)
         });
     let cgr = (prop_oneof![1 => Just(1u64), 2 => 1u64..=4096], threads_cli()).prop_flat_map(|(vs, t)| {
         let cmd = Cmd { vec_size: Some(vs), threads: t, ..Cmd::base(Sub::Cgr) };
-        (Just(cmd), prop_oneof![2 => Just(Rel::Library), 1 => threads_cli().prop_map(Rel::Threads)])
+        (Just(cmd), prop_oneof![4 => Just(Rel::Library), 2 => threads_cli().prop_map(Rel::Threads), 1 => Just(Rel::PyEntry)])
     });
     let kcgr = (3u64..=6, any::<bool>(), 1u64..=4096, threads_cli()).prop_flat_map(|(k, counts, vs, t)| {
         let cmd = Cmd { k, counts, vec_size: Some(vs), threads: t, ..Cmd::base(Sub::KCgr) };
-        (Just(cmd), prop_oneof![2 => Just(Rel::Library), 1 => threads_cli().prop_map(Rel::Threads), 2 => Just(Rel::Counts)])
+        (Just(cmd), prop_oneof![4 => Just(Rel::Library), 2 => threads_cli().prop_map(Rel::Threads), 4 => Just(Rel::Counts), 1 => Just(Rel::PyEntry)])
     });
     let cov = (prop_oneof![2 => 7u64..=12, 1 => 7u64..=31], preset(), 5u64..=12, 5u64..=12, prop_oneof![3 => Just(6u64), 1 => 6u64..=128], any::<bool>(), any::<bool>(), threads_cli())
         .prop_flat_map(|(k, p, bs, bc, mem, counts, alt, t)| {
             let cmd = Cmd { k, preset: p, bin_size: bs, bin_count: bc, memory: mem, counts, alt, threads: t, ..Cmd::base(Sub::Cov) };
-            (Just(cmd), prop_oneof![3 => Just(Rel::Library), 2 => preset().prop_map(Rel::Preset), 2 => threads_cli().prop_map(Rel::Threads), 2 => Just(Rel::Counts)])
+            (Just(cmd), prop_oneof![6 => Just(Rel::Library), 4 => preset().prop_map(Rel::Preset), 4 => threads_cli().prop_map(Rel::Threads), 4 => Just(Rel::Counts), 1 => Just(Rel::PyEntry)])
         });
     let min = (7u64..=28, prop_oneof![2 => Just(0u64), 3 => 1u64..=30], any::<bool>(), threads_cli()).prop_flat_map(|(m, d, m2s, t)| {
         let cmd = Cmd { m, w: if d == 0 { 0 } else { m + d }, m2s, threads: t, ..Cmd::base(Sub::Min) };
-        (Just(cmd), prop_oneof![2 => Just(Rel::Library), 2 => threads_cli().prop_map(Rel::Threads)])
+        (Just(cmd), prop_oneof![4 => Just(Rel::Library), 4 => threads_cli().prop_map(Rel::Threads), 1 => Just(Rel::PyEntry)])
     });
     let ctr = (prop_oneof![3 => 10u64..=14, 1 => 10u64..=31], prop_oneof![3 => Just(6u64), 1 => 6u64..=128], any::<bool>(), threads_cli()).prop_flat_map(|(k, mem, acgt, t)| {
         let cmd = Cmd { k, memory: mem, acgt, threads: t, ..Cmd::base(Sub::Ctr) };
-        (Just(cmd), prop_oneof![2 => Just(Rel::Library), 2 => threads_cli().prop_map(Rel::Threads), 2 => Just(Rel::Acgt)])
+        (Just(cmd), prop_oneof![4 => Just(Rel::Library), 4 => threads_cli().prop_map(Rel::Threads), 4 => Just(Rel::Acgt), 1 => Just(Rel::PyEntry)])
     });
     prop_oneof![4 => oligo, 2 => cgr, 2 => kcgr, 3 => cov, 3 => min, 3 => ctr].boxed()
 }
